@@ -87,10 +87,27 @@ def check_one(data, newline):
     """Returns (violations, nontrivial)."""
     v = []
     try:
-        keep = split_lines(data, newline, keep_ends=True)
+        # call history: the lists handed out belong to the caller, who may
+        # edit them; later calls must not see the edits
+        first = split_lines(data, newline, keep_ends=False)
+        first_copy = list(first) if isinstance(first, list) else first
+        if isinstance(first, list):
+            first.append(b'caller-added')
+            first[0:1] = [b'caller-edited']
+        keep_ = split_lines(data, newline, keep_ends=True)
+        keep = list(keep_) if isinstance(keep_, list) else keep_
+        if isinstance(keep_, list):
+            keep_.reverse()
+            keep_.append(b'caller-added')
         bare = split_lines(data, newline, keep_ends=False)
+        again = split_lines(data, newline, keep_ends=True)
     except Exception as e:
         return [('exception:%s' % type(e).__name__, repr(e))], False
+    if first_copy != bare or again != keep:
+        v.append(('law5-result-depends-on-call-history',
+                  'after the caller edited the returned lists: first call '
+                  '%d lines, later calls %d / %d lines'
+                  % (len(first_copy), len(bare), len(again))))
     if len(data) > 200000:
         terminated, tail = ref_split_fast(data, newline)
     else:
@@ -167,7 +184,9 @@ def plan(tier):
                 '(LF, CRLF in ASCII, UTF-16-LE/BE, UTF-32-LE/BE) x '
                 'keep_ends in {False, True}; a case (string, newline) is '
                 'non-trivial when the string contains >= 1 occurrence of the '
-                'newline; each case distinct by construction. Plus inputs of '
+                'newline; each case distinct by construction; every case is '
+                'four calls, the caller editing the returned lists in '
+                'between. Plus inputs of '
                 '1023..65537 bytes at buffer boundaries and inputs of 2 MiB '
                 '(thorough 9 MiB) in which the newline straddles every '
                 'multiple of 4096 / 1000 / 4099 at every offset k'
